@@ -189,6 +189,18 @@ def run(ctx):
             g1 = tr31.wrap(k1, t.impl_header(c), c["key"])
             g2 = tr31.wrap(k2, t.impl_header(c), c["key"])
             seqs.append((k1, [("U", g1), ("K", k2), ("U", g1), ("U", g2), ("K", k1), ("U", g2), ("U", g1)], [True, None, False, True, None, False, True]))
+    # ... the caller keeps the KBPK in one bytearray and overwrites it in place (M=): what the object derived before must not
+    #     authenticate a block of the old key, and blocks of the new key must open
+    for v in "ABCD":
+        for ks in t.KBPK_SIZES[v]:
+            k1, k2 = rng.randbytes(ks), rng.randbytes(ks)
+            k1b = bytes([k1[0] ^ 0x10]) + k1[1:]           # one bit apart
+            c = t.gen_case(rng, version=v, profile="few", keylen=16, mask=None)
+            g1 = tr31.wrap(k1, t.impl_header(c), c["key"])
+            g2 = tr31.wrap(k2, t.impl_header(c), c["key"])
+            g1b = tr31.wrap(k1b, t.impl_header(c), c["key"])
+            seqs.append((k1, [("M", k1), ("U", g1), ("M", k2), ("U", g1), ("U", g2), ("M", k1b), ("U", g1), ("U", g1b), ("W", c["key"], None), ("M", k1), ("U", g1)],
+                         [None, True, None, False, True, None, False, True, None, None, True]))
     # ... and across versions on one object: a KBPK that is only DES-equivalent (parity-adjusted, or K1K2K1 for K1K2) to the
     #     current one must not open an AES (version D) block, whatever TDES operation the object performed before
     for ks in (16, 24):
